@@ -608,7 +608,7 @@ MUTANTS = [
     dict(name='clearPiece_black_material', file='lib/texellib/position.cpp', pattern=r'            bMtrl_ -= pVal;\n            blackBB_ &= ~sqMask;\n            if \(removedPiece == Piece::BPAWN\) \{\n                bMtrlPawns_ -= pVal;\n                pHashKey \^= psHashKeys\[Piece::BPAWN\]\[sq\];\n            \}\n        \}\n    \}\n\}', repl='            bMtrl_ -= pVal;\n            blackBB_ &= ~sqMask;\n            if (removedPiece == Piece::BPAWN) {\n                bMtrlPawns_ += pVal;\n                pHashKey ^= psHashKeys[Piece::BPAWN][sq];\n            }\n        }\n    }\n}', groups=['clearPiece']),
     dict(name='movePiece_hash_to', file='lib/texellib/position.cpp', pattern=r'    hashKey \^= psHashKeys\[piece\]\[to\];', repl='    hashKey ^= psHashKeys[piece][from ^ 1];', groups=['movePieceNotPawn']),
     dict(name='setEpSquare_file_index', file='lib/texellib/position.hpp', pattern=r'hashKey \^= epHashKeys\[epSquare.isValid\(\) \? epSquare.getX\(\) \+ 1 : 0\];', repl='hashKey ^= epHashKeys[epSquare.isValid() ? epSquare.getX() : 0];', groups=['setEpSquare']),
-    dict(name='makeMove_castle_rook_square', file='lib/texellib/position.cpp', pattern=r'                movePieceNotPawn\(k0 - 4, k0 - 1\);\n            \}\n        \}\n\n        // Perform move\n        movePieceNotPawn\(move.from\(\), move.to\(\)\);', repl='                movePieceNotPawn(k0 - 4, k0 - 2 + 1 - 0 * 1);\n            }\n        }\n\n        // Perform move\n        movePieceNotPawn(move.from(), move.to());', groups=['makeMove'], count=1),
+    dict(name='makeMove_castle_rook_square', file='lib/texellib/position.cpp', pattern=r'                movePieceNotPawn\(k0 - 4, k0 - 1\);\n            \}\n        \}\n\n        // Perform move\n        movePieceNotPawn\(move.from\(\), move.to\(\)\);', repl='                movePieceNotPawn(k0 - 3, k0 - 1);\n            }\n        }\n\n        // Perform move\n        movePieceNotPawn(move.from(), move.to());', groups=['makeMove'], count=1),
     dict(name='makeMove_clock_not_reset_on_capture', file='lib/texellib/position.cpp', pattern=r'    if \(\(capP != Piece::EMPTY\) \|\| \(\(pieceTypeBB\(Piece::WPAWN, Piece::BPAWN\) & fromMask\) != 0\)\) \{\n        halfMoveClock = 0;', repl='    if ((capP != Piece::EMPTY) || ((pieceTypeBB(Piece::WPAWN, Piece::BPAWN) & fromMask) != 0)) {\n        halfMoveClock = (capP != Piece::EMPTY && move.promoteTo() != Piece::EMPTY) ? halfMoveClock + 1 : 0;', groups=['makeMove']),
     dict(name='makeMove_fullmove_white', file='lib/texellib/position.cpp', pattern=r'    if \(!wtm\)\n        fullMoveCounter\+\+;\n    whiteMove = !wtm;', repl='    if (wtm)\n        fullMoveCounter++;\n    whiteMove = !wtm;', groups=['makeMove']),
     dict(name='makeMove_ep_black_capture_square', file='lib/texellib/position.cpp', pattern=r'                clearPiece\(move.to\(\) \+ 8\);', repl='                clearPiece(move.to() + 8 - 16 * (move.to().getX() == 7));', groups=['makeMove']),
